@@ -103,6 +103,14 @@ claim("C14", "other", "provenance templates over the acyclic paths of Note::pars
       "Partial: the numeric correctness of the padding expression for every residue is not evaluated (idiom recognised). Trusted: C02 (header/ABI-tag decoding), C03 (buffer), core slice-pattern matching.",
       "DESIGN.md 5/C14")
 
+claim("C13", "other", "provenance normal forms of the record-yielding outcomes of both queries, of the items/advances of the four record iterators and of the constructor call sites in both parsers",
+      "Linkage provenance (necessary conditions): the requirement/definition fields come from the records the ABI names (file/name via the paired string table, hash, flags, hidden = bit 15) "
+      "exactly under vna_other / vd_ndx == versym & 0x7fff, the aux record is drawn from the aux iterator yielded with that record, iterators start aux lists at record start + *_aux with "
+      "*_cnt entries and advance by *_next, both parsers wire sh_info / offset 0 / shdrs[sh_link] and pair the three SHT_GNU_VER* sections with the right constructors, and a record is "
+      "only returned after version_ids.get(sym_idx) succeeded.",
+      "Partial: resolution over arbitrary record graphs as a whole is behavioural and not decided. Trusted: C02 (record decoding, index/is_hidden), C15 (string lookup), C16 (termination).",
+      "DESIGN.md 5/C13")
+
 for pid in ["C01", "C02", "C03", "C04", "C05", "C06", "C07", "C08", "C09", "C10", "C11", "C12", "C13", "C14", "C15", "C16", "C17", "C18", "C20"]:
     if pid not in CLAIMS:
         na(pid, "static rule designed (DESIGN.md section 5) but its checker is not built yet in this revision; not claimed until it runs silent on the tree and fires on control mutants")
